@@ -138,14 +138,18 @@ def li_cases(ctx, rnd, n_grids, n_u):
                 ctx.fail("tie:LinearInterp.solve", "liV%d_%d" % (g, j), "solve(%r) is not finite: %r" % (u, sv), inp=meta0, site="LinearInterp.solve", fingerprint="LinearInterp.solve",
                          failing_input={"call": "LinearInterp(x, y).solve([u])", "x": x.tolist(), "y": y.tolist(), "u": u, "solve": str(sv), "expected_range": [float(x[0]), float(x[-1])]})
                 continue
-            cases.append(("liV%d_%d" % (g, j), real_stmt("solve_steps %s (%s * %s)" % (steps, Rq(u), Rq(tot)), sv, rtol=0, atol=1e-9 * xr), TAC,
+            # where the density at the returned point (nearly) vanishes the cumulative function is flat and its
+            # inverse is conditioned like sqrt(eps): 1e-6 of the range there, 1e-9 elsewhere
+            dens = float(li(np.array([sv]))[0])
+            v_tol = (1e-9 if dens > 1e-3 * float(np.max(y)) else 1e-6) * xr
+            cases.append(("liV%d_%d" % (g, j), real_stmt("solve_steps %s (%s * %s)" % (steps, Rq(u), Rq(tot)), sv, rtol=0, atol=v_tol), TAC,
                           dict(meta0, site="LinearInterp.solve", u=u, impl=sv)))
             iv = float(li.integral(np.array([sv]))[0])
             cases.append(("liI%d_%d" % (g, j), real_stmt("integral_steps %s %s" % (steps, Rq(sv)), iv, rtol=1e-11, atol=1e-12 * abs(tot)), TAC,
                           dict(meta0, site="LinearInterp.integral", x=sv, impl=iv)))
             # round trip on the implementation's own values, certified: integral(solve(u)) = u*int_all, in range
             cases.append(("liR%d_%d" % (g, j),
-                          "(Rabs (%s - %s * %s) <= %s /\\ %s <= %s <= %s)%%R" % (Rq(iv), Rq(u), Rq(tot), Rq(Fraction(1, 10 ** 9) * frac(abs(tot))), Rq(x[0] - 1e-9 * xr), Rq(sv), Rq(x[-1] + 1e-9 * xr)),
+                          "(Rabs (%s - %s * %s) <= %s /\\ %s <= %s <= %s)%%R" % (Rq(iv), Rq(u), Rq(tot), Rq(Fraction(1, 10 ** 9) * frac(abs(tot))), Rq(x[0] - v_tol), Rq(sv), Rq(x[-1] + v_tol)),
                           "split; [|split]; interval with (i_prec 90)",
                           dict(meta0, site="LinearInterp.solve", what="round trip integral(solve(u)) = u*int_all and range", u=u, solve=sv, integral=iv, int_all=tot)))
             ctx.distinct.add(("li", g, j))
